@@ -880,9 +880,13 @@ static Token *include_file(Token *tok, char *path, Token *filename_tok) {
   if (guard_name && hashmap_get(&macros, guard_name))
     return tok;
 
+  if (filename_tok->file->incl_depth >= 200)
+    error_tok(filename_tok, "#include nested too deeply");
+
   Token *tok2 = tokenize_file(path);
   if (!tok2)
     error_tok(filename_tok, "%s: cannot open file: %s", path, strerror(errno));
+  tok2->file->incl_depth = filename_tok->file->incl_depth + 1;
 
   guard_name = detect_include_guard(tok2);
   if (guard_name)
